@@ -171,16 +171,18 @@ static bool apply(World& w, const Op& op)
   };
   switch (op.k) {
     case 'r': g_stale_collision = stale_with(op.i, op.j); break;
+    case 'R': g_stale_collision = stale_with(op.i, -1); break; // overwriting a stale owner of sb, whichever sandbox the new registration goes to
     case 'u':
     case 'd': g_stale_collision = stale_with(op.i, -1); break;
-    case 'm': g_stale_collision = op.i != op.j && w.own[op.i] && w.own[op.j] && stale_with(op.i, m.st[op.j] == 2 ? m.fn[op.j] : -1); break;
+    case 'm': g_stale_collision = op.i != op.j && w.own[op.i] && w.own[op.j] && stale_with(op.i, (m.st[op.j] == 2 && m.box[op.j] == 0) ? m.fn[op.j] : -1); break;
     default: break;
   }
   switch (op.k) {
     case 'r':
     case 'R':
     case 'e': {
-      opk = op.k == 'r' ? "register-assign" : op.k == 'R' ? "register-assign(second sandbox)" : "register-construct";
+      // (the known stale-owner defect is the same whichever sandbox the NEW registration goes to: keep one name for it)
+      opk = op.k == 'r' || (op.k == 'R' && g_stale_collision) ? "register-assign" : op.k == 'R' ? "register-assign(second sandbox)" : "register-construct";
       const int s = op.k == 'R';
       sbx_t& S = s ? w.sb2 : w.sb;
       if (s) R = m.R(1);
